@@ -451,4 +451,33 @@ PROPS = {
         "level_note": "Trusted: bash as the interpreter of both bash and zsh directives; the "
                       "expected effects are derived from bpaf's own revision-0 candidate list.",
     },
+    "C20": {
+        "special": "c20",
+        "cases": {"quick": 3000, "thorough": 120000},
+        "rule": "A seeded corpus of (definition, vector) pairs is run by five builds of the harness "
+                "(bpaf features: none; autocomplete; autocomplete+docgen+batteries; dull-color; "
+                "bright-color), each printing one line per execution with the normalised outcome "
+                "(value, monochrome help text, error text); the streams are compared line by "
+                "line against the no-feature build. The corpus contains what the cfg(feature) "
+                "blocks touch: a short letter declared both as flag and argument (ambiguous "
+                "clusters), help/description strings with code fences, indented code and several "
+                "paragraphs, group_help, hidden items, completers, and vectors ending in ``, `-`, "
+                "`--`. evaluations = executions over all builds; distinct_nontrivial = distinct "
+                "lines of the reference stream.",
+        "assumptions": [
+            "Built from /repo's working tree in release mode with overflow-checks; hooks are not "
+            "compiled into these variants (cfg(bpaf_verif) off), so the comparison is between "
+            "builds a user could produce.",
+            "The derive feature only adds a re-export and is covered by the `full` variant used "
+            "for witnesses; colour builds render with Doc::monochrome.",
+            "Vectors containing --bpaf-complete-* are outside the quantifier and not generated.",
+        ],
+        "must_observe": ["lines_compared", "outcome:value", "outcome:stdout", "outcome:stderr"],
+        "technique": "runtime monitoring: differential oracle over outcome streams of five "
+                     "feature builds running the same seeded workload",
+        "level_text": "Held on the corpus observed: every build printed the same outcome for "
+                      "every (definition, vector) pair, known findings aside.",
+        "level_note": "Trusted: the emitter uses only API present in every build; the corpus "
+                      "generator is deterministic in (seed, case).",
+    },
 }
